@@ -38,8 +38,10 @@ def _work(arg):
     t = time.time()
     try:
         rows, fails = prove(case.name, case.fn, case.requires, case.ensures, case.raises, case.timeout_ms, tactic=case.tactic)
-    except Exception:
-        return dict(name=case.name, crash=traceback.format_exc(), rows=[], fails=[], seconds=time.time() - t)
+    except Exception as e:
+        from vlib.env import Unanchored
+        return dict(name=case.name, crash=traceback.format_exc(), rows=[], fails=[], seconds=time.time() - t,
+                    unanchored=str(e) if isinstance(e, Unanchored) else None)
     out_f = []
     for f in fails:
         nat = None
@@ -56,8 +58,15 @@ def _work(arg):
 def run_cases(run, modname, prop_key_prefix='', setup_pyx=False, engine='P', select=None):
     """run every case of contract module `modname`; record obligations/violations in `run`; returns number of cases"""
     from vlib.report import pmap
+    from vlib.env import Unanchored
     mod = importlib.import_module(modname)
-    cs = mod.cases()
+    try:
+        cs = mod.cases()
+    except (Unanchored, IndexError, StopIteration) as e:
+        # building the cases reads the AST of the current tree; a statement / table that is not where the contract addresses it means the
+        # obligations cannot be generated from this tree (IndexError / StopIteration come from the same look-ups in the contract modules)
+        run.unanchored(modname, f'{type(e).__name__}: {e}')
+        return 0
     idxs = [i for i, c in enumerate(cs) if (select is None or select(c)) and (c.tier == 'quick' or run.tier == 'thorough')]
     run.notes.setdefault('contract_cases', {})[modname] = {'run': len(idxs), 'defined': len(cs)}
     results = pmap(_work, [(modname, i, setup_pyx) for i in idxs])
@@ -66,6 +75,9 @@ def run_cases(run, modname, prop_key_prefix='', setup_pyx=False, engine='P', sel
         for res in sorted(results, key=lambda r: -r['seconds'])[:25]:
             print(f"TIMING {res['seconds']:8.1f}s {len(res['rows']):6d} rows  {res['name']}", flush=True)
     for res in results:
+        if res.get('unanchored'):
+            run.unanchored(f'{modname}:{res["name"]}', res['unanchored'])
+            continue
         if res.get('crash'):
             raise RuntimeError(f'contract case {res["name"]} crashed the checker:\n{res["crash"]}')
         if res['expect_fail']:
